@@ -11,6 +11,8 @@ import struct
 
 from pydicom import uid
 
+from . import exceptions
+
 
 class MaximumLengthSubItem(object):
     """Represents sub-item described in PS 3.8 D.1 Maximum Length Negotiation
@@ -66,6 +68,9 @@ class MaximumLengthSubItem(object):
         :return decoded maximum length sub-item
         """
         _, reserved, item_length, maximum_length_received = cls.item_format.unpack(stream.read(8))
+        if item_length != 0x0004:
+            # item has a fixed size: any other length does not describe it
+            raise exceptions.PDUProcessingError('Invalid Maximum Length sub-item length', item_length)
         return cls(reserved=reserved, item_length=item_length,
                    maximum_length_received=maximum_length_received)
 
@@ -248,6 +253,10 @@ class AsynchronousOperationsWindowSubItem(object):
         """
         _, reserved, item_length, max_num_ops_invoked, \
             max_num_ops_performed = cls.item_format.unpack(stream.read(8))
+        if item_length != 0x0004:
+            # item has a fixed size: any other length does not describe it
+            raise exceptions.PDUProcessingError(
+                'Invalid Asynchronous Operations Window sub-item length', item_length)
         return cls(reserved=reserved, item_length=item_length,
                    max_num_ops_invoked=max_num_ops_invoked,
                    max_num_ops_performed=max_num_ops_performed)
